@@ -262,7 +262,8 @@ def gen_hostile(rng, st):
         # config arguments the file format cannot hold, or without exactly one dot
         key, val = rng.choice([(b".k", b"v"), (b"user.name", b"a\nb"), (b"us\ner.name", b"x"), (b"user.na\nme", b"x"),
                                (b"a.b.c", b"v"), (b"nodot", b"v"), (b"s.", b"v"), (b".", b"v"), (b"user.name", b"line\n"),
-                               (b"[x].k", b"v"), (b"x.k=1", b"v")])
+                               (b"[x].k", b"v"), (b"x.k=1", b"v"), (b"user. name", b"M"), (b"user.name ", b"M"),
+                               (b"user.na\tme", b"M"), (b"user.name=x", b"y"), (b"user.email=", b"y")])
         return c_config(key, val, glob=rng.random() < 0.3)
     if k == 16:
         # mode flags of other commands combined, missing or repeated arguments
